@@ -87,4 +87,23 @@ theorem realFns_lnGamma_factorial (erf : ℝ → ℝ) (n : ℕ) :
   rw [Real.Gamma_nat_eq_factorial, Real.exp_log]
   exact_mod_cast Nat.factorial_pos n
 
+/-- Hypothesis of the log-space density theorems (Gamma, Beta, ChiSquared since F47–F49): the `ln_gamma` the code calls
+exponentiates to Euler's `Γ` on the positive reals.  How well the Lanczos `ln_gamma` satisfies it is C09's accuracy property. -/
+def LnGammaOK (F : Fns ℝ) : Prop := ∀ z : ℝ, 0 < z → Real.exp (F.lnGamma z) = Real.Gamma z
+
+/-- The ideal special functions satisfy it. -/
+theorem realFns_lnGammaOK (erf : ℝ → ℝ) : LnGammaOK (realFns erf) := by
+  intro z hz
+  simp only [realFns]
+  exact Real.exp_log (Real.Gamma_pos_of_pos hz)
+
+/-- `xlogy c x = c · log x` over `ℝ` (the `c == 0` branch returns `0 = 0 · log x`). -/
+theorem xlogy_real (c x : ℝ) : Dist.xlogy c x = c * Real.log x := by
+  unfold Dist.xlogy
+  by_cases h : c = 0 <;> simp [h]
+
+/-- `exp (c · log x) = x ^ c` for `x > 0`. -/
+theorem exp_mul_log (c x : ℝ) (hx : 0 < x) : Real.exp (c * Real.log x) = x ^ c := by
+  rw [Real.rpow_def_of_pos hx, mul_comm]
+
 end Cv.C02
